@@ -13,6 +13,7 @@
 -/
 import YalafiVerif.Proofs.Shell
 import YalafiVerif.Proofs.Reports
+import YalafiVerif.Properties.SystemStmt
 namespace Yalafi
 
 theorem C14_mapMatch_word (cm : List Int) (latex : Str) (o l : Nat) (c : Int)
